@@ -55,6 +55,12 @@ pub fn explore<S: Sys>(
     rep: &mut Report,
     keep_states: bool,
 ) -> (Stats, Vec<S>) {
+    // hard bounds per tier: a reference-tree exploration needs at most a few 10^4 states; a state
+    // space far beyond that (e.g. a hidden counter in a changed implementation) must end the
+    // run quickly as "no fixpoint" (=> inconclusive) instead of running for hours
+    let tier_cap: usize = if !cfg.thorough { 120_000 } else if !cfg.release { 300_000 } else { 3_000_000 };
+    let max_states = max_states.min(tier_cap);
+    let max_transitions: u64 = if !cfg.thorough { 40_000_000 } else if !cfg.release { 150_000_000 } else { 2_000_000_000 };
     let mut visited: HashSet<u128> = HashSet::new();
     let mut nodes: Vec<Node> = Vec::new();
     let mut all_states: Vec<S> = Vec::new();
@@ -76,7 +82,7 @@ pub fn explore<S: Sys>(
             fixpoint = true;
             break;
         }
-        if nodes.len() > max_states {
+        if nodes.len() > max_states || transitions > max_transitions {
             break;
         }
         depth += 1;
@@ -157,4 +163,105 @@ pub fn explore<S: Sys>(
         fixpoint,
     };
     (st, all_states)
+}
+
+/// Repetition ("pumping") workload: behaviours that depend on how often something happened
+/// (saturating or wrapping counters, streak heuristics, generation numbers) are out of reach of
+/// short histories and of state-merging exploration. From every start state, every cycle of
+/// symbols is repeated `k` times on the real implementation (each step judged by the system's
+/// monitors); after every iteration (or only at the end when `tail_every` is false) each tail
+/// symbol is applied to a copy, so that the monitors also judge "what happens next".
+pub fn pump<S: Sys>(
+    cfg: &Cfg,
+    rep: &mut Report,
+    starts: &[(Vec<S::Sym>, S)],
+    cycles: &[Vec<S::Sym>],
+    k: usize,
+    tail: &[S::Sym],
+    tail_every: bool,
+) -> u64 {
+    let jobs: Vec<(usize, usize)> = (0..starts.len()).flat_map(|i| (0..cycles.len()).map(move |j| (i, j))).collect();
+    let jobs_ref = &jobs;
+    let mut steps_total = 0u64;
+    let counter = std::sync::atomic::AtomicU64::new(0);
+    let counter_ref = &counter;
+    crate::util::par(cfg, rep, |shard, nsh, rep| {
+        let mut steps = 0u64;
+        for (ji, (si, ci)) in jobs_ref.iter().enumerate() {
+            if ji % nsh != shard {
+                continue;
+            }
+            let (prefix, start) = &starts[*si];
+            let cycle = &cycles[*ci];
+            let mut s = start.clone();
+            let before = rep.violations_total;
+            for it in 0..k {
+                for (pos, sym) in cycle.iter().enumerate() {
+                    let pf = || {
+                        let mut p: Vec<String> = prefix.iter().map(|x| S::render(x)).collect();
+                        for _ in 0..it {
+                            p.extend(cycle.iter().map(|x| S::render(x)));
+                        }
+                        p.extend(cycle[..=pos].iter().map(|x| S::render(x)));
+                        p
+                    };
+                    s.step(sym, rep, &pf);
+                    steps += 1;
+                }
+                if tail_every || it + 1 == k {
+                    for t in tail {
+                        let mut c = s.clone();
+                        let pf = || {
+                            let mut p: Vec<String> = prefix.iter().map(|x| S::render(x)).collect();
+                            for _ in 0..=it {
+                                p.extend(cycle.iter().map(|x| S::render(x)));
+                            }
+                            p.push(S::render(t));
+                            p
+                        };
+                        c.step(t, rep, &pf);
+                        steps += 1;
+                    }
+                }
+                if rep.violations_total > before + 3 {
+                    break; // enough witnesses for this (start, cycle)
+                }
+            }
+        }
+        rep.evaluations += steps;
+        rep.count("pump_steps", steps);
+        counter_ref.fetch_add(steps, std::sync::atomic::Ordering::Relaxed);
+    });
+    rep.count("pump_start_states", starts.len() as u64);
+    rep.count("pump_cycles", cycles.len() as u64);
+    rep.max("max_pump_repetitions", k as u64);
+    steps_total += counter.load(std::sync::atomic::Ordering::Relaxed);
+    steps_total
+}
+
+/// helper: start states from symbol prefixes applied to a fresh system
+pub fn starts_from<S: Sys>(fresh: &S, prefixes: &[Vec<S::Sym>], rep: &mut Report) -> Vec<(Vec<S::Sym>, S)> {
+    prefixes
+        .iter()
+        .map(|p| {
+            let mut s = fresh.clone();
+            for (i, sym) in p.iter().enumerate() {
+                let pf = || p[..=i].iter().map(|x| S::render(x)).collect::<Vec<_>>();
+                s.step(sym, rep, &pf);
+            }
+            (p.clone(), s)
+        })
+        .collect()
+}
+
+/// all cycles of length 1 and 2 over `syms`, plus the given extra cycles
+pub fn cycles_upto2<T: Clone>(syms: &[T], extra: &[Vec<T>]) -> Vec<Vec<T>> {
+    let mut v: Vec<Vec<T>> = syms.iter().map(|s| vec![s.clone()]).collect();
+    for a in syms {
+        for b in syms {
+            v.push(vec![a.clone(), b.clone()]);
+        }
+    }
+    v.extend(extra.iter().cloned());
+    v
 }
